@@ -364,14 +364,35 @@ func C17(c *core.Ctx) {
 		t := &modelTSM{shaTab: map[string][]byte{}}
 		var e1, e2 error
 		d1, d2 := sha512.Sum384(log1), sha512.Sum384(log2)
+		// the second request runs on a goroutine of its own while the first one is held inside its
+		// directory listing; if it has not finished within 300 ms (an implementation may serialise
+		// requests with a lock) the first one carries on and the second is waited for afterwards
+		done2 := make(chan struct{})
 		t.onReadDir = func() {
-			if useDigest2 {
-				e2 = rtmr.ExtendDigestClient(t, i2, d2[:])
-			} else {
-				e2 = rtmr.ExtendEventLogClient(t, i2, crypto.SHA384, log2)
+			go func() {
+				defer close(done2)
+				if p := safely(func() {
+					if useDigest2 {
+						e2 = rtmr.ExtendDigestClient(t, i2, d2[:])
+					} else {
+						e2 = rtmr.ExtendEventLogClient(t, i2, crypto.SHA384, log2)
+					}
+				}); p != nil {
+					e2 = fmt.Errorf("panic: %v", p)
+				}
+			}()
+			select {
+			case <-done2:
+			case <-time.After(300 * time.Millisecond):
 			}
 		}
 		pan := safely(func() { e1 = rtmr.ExtendEventLogClient(t, i1, crypto.SHA384, log1) })
+		hung := false
+		select {
+		case <-done2:
+		case <-time.After(5 * time.Second):
+			hung = true
+		}
 		gt := ""
 		var writes [][]byte
 		for _, op := range t.ops {
@@ -379,12 +400,15 @@ func C17(c *core.Ctx) {
 				writes = append(writes, op.Nth(2).B)
 			}
 		}
+		own := func(w []byte) bool { return bytes.Equal(w, d1[:]) || bytes.Equal(w, d2[:]) }
 		switch {
 		case pan != nil:
 			gt = fmt.Sprintf("overlapping extend requests panicked: %v", pan)
+		case hung:
+			gt = "the overlapping request did not return within 5 s of the first one finishing"
 		case e1 != nil || e2 != nil:
 			gt = fmt.Sprintf("valid overlapping requests failed: %v / %v", e1, e2)
-		case len(writes) != 2 || !bytes.Equal(writes[0], d2[:]) || !bytes.Equal(writes[1], d1[:]):
+		case len(writes) != 2 || !own(writes[0]) || !own(writes[1]) || (bytes.Equal(writes[0], writes[1]) && !bytes.Equal(d1[:], d2[:])):
 			gt = fmt.Sprintf("two overlapping valid requests (RTMR %d and %d): expected one write of each request's own SHA-384 digest, saw %d writes (the first request wrote %x..., its log hashes to %x...)", i1, i2, len(writes), firstN(lastOf(writes), 6), d1[:6])
 		}
 		c.Add(&core.Case{Class: "overlap", Desc: fmt.Sprintf("event log for RTMR %d overlapped by a request for RTMR %d", i1, i2), SkipModel: true, Impl: core.Ls(), GT: gt, NonTrivial: true})
